@@ -368,6 +368,8 @@ pub fn run(which: Which, args: &Args) -> i32 {
     }
     if which == Which::C08 {
         run_read_only_direct(seed, &mut ev);
+        // the certificate -> role -> authorization path on a real TLS server (net engine, independent peer)
+        crate::util::merge_net_leg(&mut ev, args, "c08tls");
     }
 
     let meta = Meta {
@@ -376,7 +378,7 @@ pub fn run(which: Which, args: &Args) -> i32 {
         rule: match which {
             Which::C01 => "one evaluation = one server session (1-32 generated requests, random unit map/handler exception map/partition/decode level) or one (function byte, payload length) grid cell; compared byte-for-byte with the reference server. distinct = (framing, request parse class, reference outcome class, unit class) keys observed".into(),
             Which::C02 => "one evaluation = one server session weighted 3:1 to invalid requests; the ordered handler/authorization call log and the final application state are compared with the reference. distinct = (framing, parse class, outcome class, unit class)".into(),
-            Which::C08 => "one evaluation = one session created with (authorization handler, role): pure/stateful/read-only policies, 7 role strings; interleaved auth+point call log, replies and state vs reference; plus direct calls on the built-in read-only policy. distinct = (framing, parse class, outcome class incl. denied_*, unit class)".into(),
+            Which::C08 => "one evaluation = one session created with (authorization handler, role): pure/stateful/read-only policies, 7 role strings; interleaved auth+point call log, replies and state vs reference; plus direct calls on the built-in read-only policy; plus 24 cells over real TLS (authority / self-signed x operator / viewer certificate x read / write single / write multiple x min 1.2 / 1.3) with a role-based policy: reply bytes, authorization call arguments incl. the role from the certificate, point-handler write log. distinct = (framing, parse class, outcome class incl. denied_*, unit class)".into(),
             Which::C17 => "one evaluation = one session walking the unit-id space (all 256 ids) against handler maps of 0-4 units, RTU (broadcast) and MBAP; output stream and per-unit call logs vs reference. distinct = (framing, parse class, outcome class, unit class)".into(),
         },
         assumptions: vec![
@@ -389,6 +391,7 @@ pub fn run(which: Which, args: &Args) -> i32 {
         floors: vec![
             ("requests".into(), args.tier.pick(1_000_000, 30_000_000)),
             ("replies_compared".into(), args.tier.pick(300_000, 10_000_000)),
+            ("tls_roles_and_arguments_checked".into(), if which == Which::C08 { 20 } else { 0 }),
         ],
         min_classes: 30,
     };
